@@ -15,8 +15,8 @@ func init() {
 	propertyExplain["C07"] = "Anti-MEV phase order at every site: PreCommit sends, the pre-commit handler dispatch and the optional callbacks NewPreBlockFromContext/NewPreCommit/ProcessPreBlock are reachable only with the extension enabled at the current height (enabling predicate checked to be EnablingHeight>=0 ∧ EnablingHeight<=BlockIndex); a Commit is constructed under anti-MEV only with an own PreCommit, an M-of-N current-view PreCommit quorum and the pre-block processed; ProcessPreBlock is called only while its flag is unset and the flag is set only after the callback returned nil; the header is built only after the pre-block. Multi-node recovery interplay is not decided."
 	propertyRules["C05"] = []ruleFn{ruleAcceptOnce, ruleQuiesce, ruleResetCover, ruleViewResetCover, ruleTip, ruleCacheAgree, ruleCacheObl}
 	propertyExplain["C05"] = "ProcessBlock is reachable only while the block-sent flag is unset and the flag is set on every path after a successful callback, cleared only by the height reset (S-ACCEPT-ONCE); every effect site (Context write, typed send other than a recovery message, effectful callback) reachable from OnReceive/OnTimeout/OnTransaction/OnNewTransaction is behind the ¬BlockSent admission (G-QUIESCE); every Context field is assigned or cleared on every view-0 path of the epoch writer except a reasoned table of carry-overs (F-RESET-COVER); ledger-derived fields come from the callbacks (P-TIP); every payload kind diverted to the future cache has a bucket that the initialiser replays and removes (A-CACHE). Retention of inboxes for skipped heights (memory only) is not decided."
-	propertyRules["C08"] = []ruleFn{ruleCacheAgree}
-	propertyExplain["C08"] = "Decides only the structural necessary condition A-CACHE: every kind of early payload is kept in a bucket of the future-message cache and replayed on every initialisation (not only at view 0), and the entered height is removed from the cache. That all nodes decide in view 0 without timeouts quantifies over timer values and multi-node schedules and is not applicable to static analysis."
+	propertyRules["C08"] = []ruleFn{ruleCacheAgree, ruleHeaderAfterPreBlock, ruleRespMatch, ruleInitArms}
+	propertyExplain["C08"] = "Decides only structural necessary conditions named by the anchors: A-CACHE (below), plus the header-after-pre-block order, the purge of mismatching early responses and the arming of the timer on every initialisation. A-CACHE: every kind of early payload is kept in a bucket of the future-message cache and replayed on every initialisation (not only at view 0), and the entered height is removed from the cache. That all nodes decide in view 0 without timeouts quantifies over timer values and multi-node schedules and is not applicable to static analysis."
 }
 
 func amevSites(c *RC) []*Site {
@@ -675,6 +675,21 @@ func ruleCacheAgree(c *RC) *RuleResult {
 				r.ok(ini.Name + ": cache lookup for BlockIndex on every initialisation; the lookup deletes the key")
 			} else {
 				r.fail(ini.Name+"/lookup-guard", c.Prog.Pos(s.Node), "cache lookup is guarded by the view, is not for the current height, or does not remove the height")
+			}
+		}
+	}
+	// the cache is (re)created only by Start (A3: called once, before everything else); any other re-creation would drop
+	// early payloads of the next height before the initialiser replays them
+	for _, s := range c.sitesWhere(func(s *Site) bool { return s.Kind == "write" && s.Loc == "dbft.cache" && s.Fn.Recv == "DBFT" }) {
+		for _, sn := range s.Snaps {
+			if sn.Idx != nil {
+				continue
+			}
+			r.Sites++
+			if s.Fn == c.API["Start"] {
+				r.ok("the future-message cache is created in Start")
+			} else {
+				r.fail(s.Fn.Name+"/cache-recreated", c.Prog.Pos(s.Node), "the future-message cache is re-created in "+s.Fn.Name+" (cached early payloads are lost before they are replayed)")
 			}
 		}
 	}
